@@ -50,6 +50,8 @@ def run(chk, repo):
     link_tables(chk, repo, L, "C03")
     from .common_rules import record_type_dispatch, to_dict_contract, to_dict_rules, variable_conversion
     chk.rule("C03-T6", "record-type dispatch, to_dict contract, Variable conversion", 5)
+    from .open_rules import open_rules
+    chk.attempt(open_rules, chk, repo, "C03-T9", ("attrs",), "open_image: the group attributes built from the line records (scan id, channel, sensor) are still those of the returned group")
     from .common_rules import record_dispatch_eval, variable_conversion_eval
     chk.attempt(record_dispatch_eval, chk, repo, "C03-T6")
     chk.attempt(record_type_dispatch, chk, repo, "C03-T6", covered_by="record_dispatch_eval")
